@@ -420,6 +420,11 @@ def run_inv_overrides(p: Project, clause: str, floor: int) -> RuleResult:
                 if isinstance(n, ast.Compare) and len(n.ops) == 1 and isinstance(n.ops[0], (ast.Eq, ast.NotEq)):
                     for a, b in ((n.left, n.comparators[0]), (n.comparators[0], n.left)):
                         if isinstance(a, ast.Attribute) and isinstance(a.value, ast.Name) and a.value.id == sn and isinstance(b, ast.Name):
+                            # `old = self.a ... if self.a != old` compares the attribute with its own earlier value
+                            # (a change detector), not with a size-derived key
+                            own = any(isinstance(s_, ast.Assign) and any(isinstance(t, ast.Name) and t.id == b.id for t in s_.targets) and isinstance(s_.value, ast.Attribute) and s_.value.attr == a.attr and isinstance(s_.value.value, ast.Name) and s_.value.value.id == sn for s_ in ast.walk(fi.node))
+                            if own:
+                                continue
                             if (region_reads(fi) - {a.attr}) & ext_mutable:
                                 compared.setdefault(a.attr, set()).add(b.id)
                 elif isinstance(n, ast.Assign) and isinstance(n.value, ast.Name):
@@ -538,4 +543,83 @@ def run_inv_bypass(p: Project, clause: str, floor: int) -> RuleResult:
                 if base_call:
                     rr.add(finding("INV-BYPASS", fi, n, f"`{norm(n, 60)}` invalidates {C.name} through a base class, bypassing {C.name}._invalidate() which resets the layout memo: the widths / layout computed for the old state are reused by the next render at the same size", construct=f"base _invalidate called in {C.name}: {norm(n, 60)}"))
         rr.inst(f"{short(ov)}", True, {"class": C.name, "invalidate_calls_checked": n_calls} if len(rr.samples) < 6 else None)
+    return rr
+
+
+# --------------------------------------------------------------------------- INV-RENDER
+def run_inv_render_write(p: Project, clause: str, floor: int, exceptions: dict, only_classes=None) -> RuleResult:
+    """State that render() reads *and* the render path itself rewrites (a scroll position clamped for the size at
+    hand, a view shift) is a hidden input of every canvas already cached for another size: the cache key contains
+    the size and the focus flag, not that state.  A render-path store to such an attribute must therefore come
+    with _invalidate() whenever the value changes: either every path through the storing function (or through
+    every one of its callers on the render path) passes an invalidating call, or the store is followed by the
+    `if self.<attr> != <saved value>: self._invalidate()` idiom.  Size-keyed memos (`*cache*` attributes, checked
+    by INV-MEMO / C06.7) are not state in this sense; other exemptions are listed one by one in the table."""
+    rr = RuleResult("INV-RENDER", clause, "a render-path method that rewrites state render() reads drops the canvases cached for other sizes (_invalidate) when the value changes", floor=floor)
+    seen_keys = set()
+    for C in widget_classes(p):
+        if only_classes and C.name not in only_classes:
+            continue
+        cx = ClassCtx(p, C)
+
+        def covered(fi, node, attr, depth=0, stack=()):
+            cfg = cx.cfg(fi)
+            invs = [n for n in cfg.nodes if n.kind not in ("entry", "exit", "raise") and cx.node_invalidates(n, fi)]
+            if attr is not None:
+                # `if self.X != saved: self._invalidate()`
+                for t in cfg.nodes:
+                    if t.kind == "test" and isinstance(t.ast, ast.Compare) and len(t.ast.ops) == 1 and isinstance(t.ast.ops[0], ast.NotEq):
+                        sides = [t.ast.left, t.ast.comparators[0]]
+                        if any(isinstance(x, ast.Attribute) and x.attr == attr and isinstance(x.value, ast.Name) and x.value.id == cx.self_name(fi) for x in sides):
+                            tr = cfg.reachable_from_edges([(t, "T")], avoid=invs)
+                            if cfg.exit not in tr:
+                                invs.append(t)
+            if invs and (cfg.dominated(node, invs) or cfg.must_pass(node, invs, ends=[cfg.exit], labels=("T", "F", "n"))):
+                return True
+            if depth > 4 or id(fi) in stack:
+                return False
+            callers = [g for g in cx.callers.get(id(fi), set()) if id(g) in cx.closure_funcs]
+            if not callers:
+                return False
+            for g in callers:
+                gcfg = cx.cfg(g)
+                sites = []
+                for n in gcfg.nodes:
+                    for root in cx.stmt_exprs(n):
+                        for x in walk_no_nested(root):
+                            if isinstance(x, ast.Attribute):
+                                c = cx.classify_attr(g, x)
+                                if c and c[0] == "method" and c[1] is fi:
+                                    sites.append(n)
+                if not sites or not all(covered(g, s, None, depth + 1, (*stack, id(fi))) for s in sites):
+                    return False
+            return True
+
+        for fi in cx.closure_funcs.values():
+            if fi.name in ("__init__", "_invalidate", "__new__") or fi.is_static or fi.is_classmethod:
+                continue
+            cfg = cx.cfg(fi)
+            for node in cfg.nodes:
+                if node.kind in ("entry", "exit", "raise"):
+                    continue
+                for attr, an, how in cx.node_writes(node, fi):
+                    if how != "store" or "cache" in attr.lower():
+                        continue
+                    key = f"{short(fi)}:{attr}"
+                    if key in seen_keys:
+                        continue
+                    exc = exceptions.get(key)
+                    if exc:
+                        seen_keys.add(key)
+                        rr.inst(key, True)
+                        rr.exceptions_used.append(f"{key} - {exc}")
+                        continue
+                    ok = covered(fi, node, attr)
+                    if ok:
+                        # all stores of this attr in fi must be covered, keep checking other nodes
+                        rr.inst(f"{key}@{norm(node.stmt, 30)}", True, {"class": C.name, "method": short(fi), "attribute": attr, "store": norm(node.stmt, 60)} if len(rr.samples) < 8 else None)
+                        continue
+                    seen_keys.add(key)
+                    rr.inst(key, True)
+                    rr.add(finding("INV-RENDER", fi, node.stmt, f"`{norm(node.stmt, 60)}` rewrites self.{attr} on the render path of {C.name} (render() reads it) and can finish without _invalidate(): canvases cached for other sizes keep showing the old value while the widget reports the new one (render at size A, then at size B, then at A again serves the stale canvas)", construct=f"render-path store to {attr} without _invalidate()", analysed_as=C.name))
     return rr
